@@ -311,7 +311,7 @@ def cmath_part(t, sfx, tables, L):
     L.table('t3_' + sfx, t3)
     for f in ('floor', 'ceil', 'trunc', 'round', 'rint', 'lrint', 'llrint', 'signbit', 'fabs', 'abs', 'isnan', 'isinf', 'isfinite'):
         L.ob(f + '_' + sfx, f + '.' + sfx, 't1_' + sfx)
-    for f in ('copysign', 'fmin', 'fmax', 'fdim', 'fmod', 'nextafter', 'midpoint'):
+    for f in ('copysign', 'fmin', 'fmax', 'fdim', 'fmod', 'remainder', 'nextafter', 'midpoint'):
         L.ob(f + '_' + sfx, f + '.' + sfx, 't2_' + sfx)
     L.ob('fma_' + sfx, 'fma.' + sfx, 't3_' + sfx)
 
